@@ -3,7 +3,7 @@ CONSTANTS
   N = 4
   Alphabet <- AlphaCore
   Times <- TimesCore
-  MaxAccepts = 4
+  MaxAccepts = 3
   ForkEpoch <- ForkNever
   PartialWindow = FALSE
   OverflowGuard = FALSE
